@@ -1787,6 +1787,7 @@ class Run:
         self.deadline = None
         self.prop_depth = 0
         self.spec_depth = 0
+        self.yield_stack = []
         self.stores_checked = 0
         self.cur_line = None
         self.modifies = ()
